@@ -55,9 +55,17 @@ std::string stream_text(const StringStream<Char_T> &ss) {
     return o;
 }
 
+// stale: 0 a fresh stream; otherwise the stream has held a run of that digit before (written, then Clear()ed: the storage keeps it behind
+// the new content) - the text depends on the number and the format only, not on what lies beyond the stream's length
 template <typename Char_T>
-void run_width(const Case &c, pbt::Ctx &ctx) {
+void run_width(const Case &c, pbt::Ctx &ctx, char stale = 0) {
     StringStream<Char_T> ss;
+    if (stale != 0) {
+        for (int i = 0; i < 420; ++i) {
+            ss += Char_T((unsigned char)stale);
+        }
+        ss.Clear();
+    }
     for (char ch : c.prefix) {
         ss += Char_T((unsigned char)ch);
     }
@@ -105,7 +113,19 @@ void run_width(const Case &c, pbt::Ctx &ctx) {
         } else {
             cls = "integer-text";
         }
-        ctx.deviation(cls, "got '" + got + "' expected '" + expect + "'" + b);
+        if (stale != 0) {
+            cls = "stale-storage-" + cls;
+        }
+        ctx.deviation(cls, "got '" + got + "' expected '" + expect + "'" + b + (stale != 0 ? std::string(" (the stream had held a run of '") + stale + "' and was cleared)" : std::string()));
+    }
+    if (stale == 0 && c.kind <= 1) {
+        const uint64_t h = (c.bits * 0x9E3779B97F4A7C15ULL) >> 40;
+        if (c.precision <= 2 || (h & 3) == 0) {
+            run_width<Char_T>(c, ctx, '9');
+        }
+        if (c.precision <= 2 || (h & 3) == 1) {
+            run_width<Char_T>(c, ctx, char('0' + (h >> 4) % 10));
+        }
     }
 }
 
